@@ -510,7 +510,9 @@ pub fn run(ctx: &Ctx) -> (Spec, Report) {
     let shards = 64;
     let r2 = par_shards(ctx.threads, shards, |s| {
         let mut rep = Report::new();
-        let hostile = ["fn(u8) -> u8", "Box<dyn Send>", "!", "(u8)", "*const u8", "m!()", "[u8; N]", "Self", "<u8 as Into<u16>>::Output", "Vec", "Option", "HashMap<String>", "&'static mut [u8]", "[Vec<u8>; 0]", "Option<()>", "Vec<Vec<Vec<()>>>", "impl Sized", "_", "Weak<u8>", "std::rc::Rc<std::cell::RefCell<Self>>"];
+        let hostile = ["fn(u8) -> u8", "Box<dyn Send>", "!", "(u8)", "*const u8", "m!()", "[u8; N]", "Self", "<u8 as Into<u16>>::Output", "Vec", "Option", "HashMap<String>", "&'static mut [u8]", "[Vec<u8>; 0]", "Option<()>", "Vec<Vec<Vec<()>>>", "impl Sized", "_", "Weak<u8>", "std::rc::Rc<std::cell::RefCell<Self>>",
+            // maps keyed by the item's own type parameter (the generator names parameters T and U)
+            "HashMap<T, String>", "HashMap<U, Vec<T>>", "Vec<HashMap<T, T>>", "Option<HashMap<T, u8>>"];
         for k in 0..(n_lib / shards) {
             let mut rng = Rng::derive(seed, "C07-broad", (s * 1_000_000 + k) as u64);
             let lang = ALL_LANGS[rng.below(6)];
@@ -525,12 +527,39 @@ pub fn run(ctx: &Ctx) -> (Spec, Report) {
             if rng.coin() {
                 let h = *rng.pick(&hostile);
                 planted = h;
-                for it in prog.items.iter_mut() {
-                    if let crate::model::Kind::Struct(fs) = &mut it.kind {
-                        if let Some(f) = fs.first_mut() {
-                            f.ty = crate::model::Ty::Raw(h.to_string());
-                            break;
+                // into the first field of a struct or the first newtype / struct variant of an enum; forms that mention T go to
+                // a generic item when there is one
+                let wants_generic = h.contains('T');
+                let start = prog.items.iter().position(|i| !wants_generic || !i.generics.is_empty()).unwrap_or(0);
+                let n_items = prog.items.len().max(1);
+                let in_enum = rng.coin();
+                'plant: for k in 0..n_items {
+                    let it = &mut prog.items[(start + k) % n_items];
+                    match &mut it.kind {
+                        crate::model::Kind::Struct(fs) if !in_enum || k + 1 == n_items => {
+                            if let Some(f) = fs.first_mut() {
+                                f.ty = crate::model::Ty::Raw(h.to_string());
+                                break 'plant;
+                            }
                         }
+                        crate::model::Kind::Enum { variants, tag: Some(_), .. } if in_enum => {
+                            for v in variants.iter_mut() {
+                                match &mut v.kind {
+                                    crate::model::VKind::Newtype(t) => {
+                                        *t = crate::model::Ty::Raw(h.to_string());
+                                        break 'plant;
+                                    }
+                                    crate::model::VKind::Struct(fs) => {
+                                        if let Some(f) = fs.first_mut() {
+                                            f.ty = crate::model::Ty::Raw(h.to_string());
+                                            break 'plant;
+                                        }
+                                    }
+                                    _ => {}
+                                }
+                            }
+                        }
+                        _ => {}
                     }
                 }
             }
